@@ -507,6 +507,17 @@ int c04_main(void) {
 }
 
 
+# `continue` in a do-while must evaluate the loop condition (the C front-end jumped to the start of the body, fixed in /repo)
+CORPUS["do-continue"] = PRELUDE + """
+int dc(int limit) { int i = 0; int n = 0; do { i = i + 1; n = n + 1; if (n < limit) { continue; } n = n + 100; } while (i < 2); return n; }
+int c04_main(void) {
+  unsigned long acc = 0ul; unsigned long r; int k;
+  for (k = 0; k < 5; k = k + 1) { r = (unsigned long)dc(k * 3); put_hex(r); acc = acc * 31ul + r; }
+  put_hex(acc); return (int)(acc & 127ul);
+}
+"""
+
+
 def _operators_program():
     """every comparison and every arithmetic operator of the four types on all pairs of 8 boundary values (incl. equal operands)"""
     out = [PRELUDE]
